@@ -6,11 +6,11 @@
    Part 2 (C08): one `_ResamplingHelper` + the None/NaN filter of
    `_StreamingHelper._receive_samples`: bounded deque, source properties, the relevance
    window and the bisect/islice slice handed to the resampling function. *)
-From Verif Require Export model.Common.
+From Verif Require Export model.Common gen.Resampler.
 
 (* ------------------------------------------------------------------ Part 1: timeline *)
 
-(* Resampler._calculate_window_end, as written.  `timedelta % timedelta` is a floor
+(* Resampler._calculate_window_end, as read by hand (reference for the translated function).  `timedelta % timedelta` is a floor
    modulo (Z.modulo for a positive divisor); `not elapsed` is `elapsed == 0`.
    Returns (window_end, start_delay_time). *)
 Definition window_end_spec (now period : Z) (align_to : option Z) : Z * Z :=
@@ -22,7 +22,9 @@ Definition window_end_spec (now period : Z) (align_to : option Z) : Z * Z :=
     else (now + period * 2 - elapsed, if negb (elapsed =? 0) then period - elapsed else 0)
   end.
 
-Definition window_end := window_end_spec.
+(* What the model runs is the function regenerated from /repo by tools/translate.py (gen/Resampler.v);
+   proofs/ResamplerTimeline.v shows it equal to [window_end_spec]. *)
+Definition window_end : Z -> Z -> option Z -> Z * Z := calculate_window_end.
 
 (* wall-clock instant of the timer's first tick: the constructor sets
    _next_tick_time = loop_now + resampling_period + start_delay_time *)
